@@ -606,6 +606,10 @@ var natives = map[string]extFn{
 		if re.String() == hexFloatPattern {
 			return e.mHexFloatRe(strBytes(a[1]))
 		}
+		if regexp.QuoteMeta(re.String()) == re.String() {
+			// a pattern without metacharacters matches exactly when it occurs as a substring
+			return e.mIndex(strBytes(a[1]), strBytes(re.String())) >= 0
+		}
 		e.unsupported("regexp.MatchString with symbolic string: " + re.String())
 		return nil
 	},
